@@ -115,6 +115,8 @@ def fw_items(cpp, marks):
         tree = c_read(body)
         if tree is None:
             return None, f"the braces of {hdr!r} do not balance"
+        if name not in ("setup", "loop"):
+            items.append(((("sec", name),), ("hdr", "def")))
         _walk_c(tree, (("sec", name),), items, marks)
     return sorted(items, key=repr), None
 
@@ -189,6 +191,7 @@ def py_items(tops):
             _walk_py(t[2], (("sec", "loop"),), items)
         elif t[0] == "def":
             name = RE_PY_DEF.match(G.canon_spacing(t[1])).group(1)
+            items.append(((("sec", name),), ("hdr", "def")))
             _walk_py(t[2], (("sec", name),), items)
     return sorted(items, key=repr)
 
@@ -264,7 +267,8 @@ CATCHES = [(None, None), ("Exception", None), ("ValueError", "err"), ("a.b.Err",
 INDENTS = ["", "  ", "    ", "\t", "      "]
 
 
-def gen_ir(rng, depth, hollow):
+def gen_ir(rng, depth, hollow, specs=None):
+    specs = specs or LEAF_SPECS
     def body(d, allow_empty=True):
         if allow_empty and rng.random() < hollow:
             return []
@@ -272,7 +276,7 @@ def gen_ir(rng, depth, hollow):
 
     def node(d):
         if d >= depth or rng.random() < 0.4:
-            return ["leaf", rng.choice(LEAF_SPECS)]
+            return ["leaf", rng.choice(specs)]
         r = rng.random()
         if r < 0.45:
             brs = [[rng.choice(CONDS), body(d + 1)] for _ in range(rng.choice([1, 1, 2, 3, 4]))]
